@@ -56,6 +56,8 @@ type Ctx struct {
 	epochN    int
 	dry       bool
 	writes    map[string]bool // heap keys written (collected during dry runs and always)
+	nonFresh  map[string]bool // heap keys written at objects not allocated by this run
+	freshRefs map[string]bool // reference terms returned by allocations
 	fn        *ssa.Function
 	oblCount  map[string]int
 	rootFrame *frame
@@ -72,6 +74,8 @@ func (c *Ctx) fork() *Ctx {
 	n.inlined = cloneMap(c.inlined)
 	n.oblCount = cloneMap(c.oblCount)
 	n.writes = map[string]bool{}
+	n.nonFresh = map[string]bool{}
+	n.freshRefs = cloneMap(c.freshRefs)
 	n.decls = c.decls[:len(c.decls):len(c.decls)]
 	n.body = c.body[:len(c.body):len(c.body)]
 	n.obls = c.obls[:len(c.obls):len(c.obls)]
@@ -491,6 +495,21 @@ func (c *Ctx) heapGet(h *heapState, key, sort string) Term {
 func (c *Ctx) heapSet(h *heapState, key string, t Term) {
 	c.eng.heapSorts[key] = t.Sort
 	c.writes[key] = true
+	if key != allocKey {
+		c.nonFresh[key] = true
+	}
+	h.arrays[key] = c.name(key, t)
+}
+
+// heapSetAt records a write to the object `base` only; writes to objects allocated by the
+// function itself are tracked separately (loop frames: objects that existed before a loop are
+// unchanged by it when the loop only writes objects it allocated).
+func (c *Ctx) heapSetAt(h *heapState, key string, t Term, base Term) {
+	c.eng.heapSorts[key] = t.Sort
+	c.writes[key] = true
+	if !c.freshRefs[base.S] {
+		c.nonFresh[key] = true
+	}
 	h.arrays[key] = c.name(key, t)
 }
 
